@@ -91,8 +91,27 @@ def run_one(split, regu, solver, loads, notch, fails, stats):
                 fails.append(dict(key="damage-without-load:%s:%s" % (solver, regu), what="no loading but max|d| = %.3e at step %d (%s)" % (np.abs(d).max(), k, cfg), cfg=cfg, step=k))
             if H is not None and np.abs(H).max() != 0:
                 fails.append(dict(key="history-without-load", what="no loading but the history field is non-zero (%s)" % (cfg,), cfg=cfg, step=k))
+        if notch and len(crack) > 0 and np.abs(d[crack] - 1).max() != 0:
+            # model: saved damage = max(d_old, d_solver) >= d_solver = 1 on the imposed nodes
+            fails.append(dict(key="damage-imposed-lost:%s" % solver, what="imposed damage d=1 on the notch nodes is not in the saved damage (max deviation %.3e) at step %d (%s)"
+                              % (np.abs(d[crack] - 1).max(), k, cfg), cfg=cfg, step=k))
         prevH, prevD = H, d
         hist.append(float(d.max()))
+    if solver == "History" and prevH is not None:
+        # exact differential test of the Gallina rule hist_step = max(H, psi+): one more evaluation of
+        # the driving energy at the final displacement against the committed history
+        from EasyFEA.FEM import MatrixType
+        ge = mesh.groupElem
+        Hc = np.array(getattr(simu, "_PhaseField__old_psiP_e_pg"), dtype=float).copy()
+        got = np.array(getattr(simu, "_PhaseField__Calc_psiPlus_e_pg")(ge), dtype=float)
+        eps_ = simu._Calc_Epsilon_e_pg(simu.displacement, ge, MatrixType.mass)
+        raw = np.array(simu.phaseFieldModel.Calc_psi_e_pg(eps_)[0], dtype=float)
+        want = np.maximum(Hc, raw)
+        stats["hist_rule_points"] = stats.get("hist_rule_points", 0) + int(want.size)
+        stats["hist_rule_points_where_old_wins"] = stats.get("hist_rule_points_where_old_wins", 0) + int((Hc > raw).sum())
+        if got.shape != want.shape or np.abs(got - want).max() != 0:
+            fails.append(dict(key="history-rule-mismatch", what="driving energy returned by __Calc_psiPlus_e_pg differs from max(H, psi+) by %.3e (model hist_step) (%s)"
+                              % (np.abs(got - want).max() if got.shape == want.shape else float("nan"), cfg), cfg=cfg, step=len(loads)))
     stats["runs"].append(dict(cfg=cfg, dmax=hist))
 
 
